@@ -400,7 +400,7 @@ def rule_blanket_flag(run, F, cfg):
     kinds = sorted(k for k, a, c, l in shr)
     exact = [(a, c) for k, a, c, l in shr if k == "remove"]
     ok_x = kinds == ["clear", "remove"] and bool(exact) and \
-        bool(re.match(r"^(std::string::String::as_str\(|<std::string::String as std::ops::Deref>::deref\()?\$\w+\)?$", exact[0][0][0]))
+        bool(re.match(r"^(?:<?[\w:<> ,&']+>?::(?:as_str|deref|as_ref|borrow)\()?\$\w+\)?$", exact[0][0][0]))
     odd = [k for a, c in exact for k in c
            if not (re.match(r"^discr\(<std::slice::Iter<.*> as std::iter::Iterator>::next\(", k)
                    or re.match(r"^discr\(cosmetic_filter_cache::HostnameFilterBin::get\(", k)
@@ -448,7 +448,8 @@ def rule_label_walk(run, F, cfg):
     IDX = r"<str as std::ops::Index<[^>]*>>::index|core::str::traits::<impl std::ops::Index<[^>]*> for str>::index"
     g = F.fn("filters::cosmetic::get_hashes_from_labels")
     run.touched(g)
-    hashed = [re.sub(IDX, "core::str::traits::index", g.vexpr_operand(t["args"][0])) for b, t in g.calls(r"^utils::fast_hash$")]
+    hashed = [re.sub(IDX, "core::str::traits::index", g.vexpr_operand(t["args"][0])).replace(
+        "std::ops::Range::Range{start: 0, end: ", "std::ops::RangeTo::RangeTo{end: ") for b, t in g.calls(r"^utils::fast_hash$")]
     search = [re.sub(IDX, "core::str::traits::index", g.vexpr_call(t)).replace("utils::find_char_reverse", "memchr::memrchr")
               for b, t in g.calls(r"find_char_reverse$|memchr::memrchr$")]
     cursor_names = {n for l, n in g.varnames.items() if l > g.argc and str(g.locals[l].get("ty") if isinstance(g.locals[l], dict) else g.locals[l]) == "usize"}
@@ -600,6 +601,7 @@ def rule_label_walk_total(run, F, cfg):
     run.touched(g)
     p1, p2 = g.local_name(1), g.local_name(2)
     whole = f"utils::fast_hash(core::str::traits::index({p1}, std::ops::RangeTo::RangeTo{{end: {p2}}}))"
+    whole0 = f"utils::fast_hash(core::str::traits::index({p1}, std::ops::Range::Range{{start: 0, end: {p2}}}))"
     n = 0
     bad = []
     for p in _ep(g):
@@ -607,7 +609,7 @@ def rule_label_walk_total(run, F, cfg):
             continue
         n += 1
         pushed = [g.expr_operand(t["args"][1]) for b, t in _pc(g, p) if strip_generics(t["callee"]) == "std::vec::Vec::push"]
-        if whole in pushed:
+        if whole in pushed or whole0 in pushed:
             continue
         if [(e, v) for e, v in p.conds] == [(f"({p2} Eq 0)", 1)]:
             continue
